@@ -1,7 +1,9 @@
 """C06 -- write-back cache: nothing reaches the remote before Commit, everything after.
 See checks/cache_common.py and spec/cache/Cache.tla.  This check reports the
 commit-related clauses: RemoteUntouched (no trigger), CommitExact, FaultReported,
-RetryConverges (a failed Commit followed by a successful one)."""
+RetryConverges (a failed Commit followed by a successful one).  The injected failure
+of a remote stream sits alternately at its open and at its close (flush); directory
+copies through the cache are part of the operation set (open findings D_DirCopy, D_SplitCopy)."""
 import vlib
 from checks import cache_common
 
